@@ -4,7 +4,18 @@ import os
 import re
 import subprocess
 
-RAN = re.compile(r"RAN (\S+)")
+RAN = re.compile(r"^RAN (.*)$", re.M)
+
+# a space inside a name/pattern, in the space-separated line protocol
+SP = "\u2423"
+
+
+def enc(s):
+    return s.replace(" ", SP)
+
+
+def dec(s):
+    return s.replace(SP, " ")
 
 
 def e2e_bin(hbin):
